@@ -171,7 +171,9 @@ def variants(i, with_xlsx):
             random.Random('perm/%s/%s' % (i, j)).shuffle(it)
             return it
         out.append(('dict/perm%d' % j, perm))
+    out.append(('dict/respelled', 'spell'))
     if with_xlsx:
+        out.append(('xlsx/respelled', 'spell'))
         for so in (0, 1):
             for bo in (0, 1):
                 out.append(('xlsx/s%d/b%d' % (so, bo), (so, bo)))
@@ -181,7 +183,15 @@ def variants(i, with_xlsx):
 
 
 def run_variant(desc, label, arg, scratch):
-    if label.startswith('dict/'):
+    if arg == 'spell':
+        # the same workbook with every reference occurrence respelled
+        # ($ markers, case, reversed corners, own-sheet qualification, ...)
+        desc = dict(desc, spelling=label)
+        if label.startswith('dict/'):
+            m = wbrun.load_dict(desc)
+        else:
+            m, _ = wbrun.load_xlsx(desc, os.path.join(scratch, 'x'))
+    elif label.startswith('dict/'):
         m = wbrun.load_dict(desc, arg)
     elif label.startswith('ondemand'):
         # only the first book is loaded; finish() completes the model with
@@ -235,8 +245,7 @@ def check_desc(desc, i, ctx, with_xlsx=True, fp_every=1):
             loaded = arg % len(desc['books'])
             if len(desc['books']) == 1 and arg == -1:
                 continue
-            spill = {k for k, a in ev.owner.items() if k[0] != loaded}
-            tainted = wbrun.downstream(desc, spill) if spill else set()
+            tainted = set()      # (spill cells were excluded until fix d9d63f7)
             needed = wbrun.upstream(desc, [k for k in obs if k[0] == loaded])
             bad = [k for k, v in obs.items() if v != ('missing',)
                    and k not in tainted and k in needed
